@@ -401,6 +401,15 @@ func resolveReference(reference VocabularyReference, registry *RDFRegistry, ctx 
 	} else if _, ok := vocab.Properties[reference.Name]; ok {
 		return nil
 	} else if _, ok := vocab.Values[reference.Name]; ok {
+		// The value was already created while parsing an earlier
+		// vocabulary, so its node is not applied again. The rdf:langString
+		// node however also flags the natural language map properties of
+		// the vocabulary being parsed, which still has to happen.
+		if n, e := registry.getNode(name); e == nil {
+			if ls, ok := n.(*langstring); ok {
+				ls.flagNaturalLanguageMaps(ctx)
+			}
+		}
 		return nil
 	} else if n, e := registry.getNode(name); e != nil {
 		return e
